@@ -352,13 +352,14 @@ class PFITSReader(Filterbank):
             blocks.append((nreads, lastread, 0))
 
         for ii, block, skip in track(blocks, description=description, disable=quiet):
+            # Read the rows touched by this block only, wherever it begins in a row
             startsub, startsamp = divmod(start, self.sub_hdr.subint_samples)
             nsubs = (
-                nsamps + self.sub_hdr.subint_samples - 1
+                startsamp + block + self.sub_hdr.subint_samples - 1
             ) // self.sub_hdr.subint_samples
 
             data = self._fitsfile.read_subints(startsub, nsubs)
-            data = data[startsamp : startsamp + nsamps]
+            data = data[startsamp : startsamp + block]
             start += block + skip
             yield block, ii, data.ravel()
 
